@@ -24,6 +24,10 @@ struct Case {
     incremental: bool,
     requested: Vec<Vec<usize>>,
     keys: Vec<[u64; 2]>,
+    /// also drive the ordering through `CommandAnalyzer` (the entry point the zod
+    /// generator uses): the graph is realised as a project of serde structs
+    #[serde(default)]
+    via_analyzer: bool,
 }
 
 fn name(i: usize) -> String {
@@ -47,6 +51,40 @@ fn reach_matrix(n_all: usize, edges: &[(usize, usize)]) -> Vec<Vec<bool>> {
         }
     }
     r
+}
+
+/// Rust source realising the graph: one serde struct per node, one field per edge,
+/// one command referencing every node (so that every node is resolved).
+fn render_project(c: &Case) -> String {
+    let mut o = String::from("use serde::{Deserialize, Serialize};\n\n");
+    for u in 0..c.n {
+        o.push_str(&format!("#[derive(Serialize, Deserialize)]\npub struct {} {{\n    pub id: u32,\n", name(u)));
+        for (k, e) in c.edges.iter().enumerate().filter(|(_, e)| e.0 == u) {
+            let t = name(e.1);
+            let ty = match k % 4 {
+                0 => format!("Vec<{}>", t),
+                1 => format!("Option<Vec<{}>>", t),
+                2 => format!("HashMap<String, {}>", t),
+                _ => format!("Vec<Option<{}>>", t),
+            };
+            o.push_str(&format!("    pub f{}: {},\n", k, ty));
+        }
+        o.push_str("}\n\n");
+    }
+    let args: Vec<String> = (0..c.n).map(|u| format!("a{}: {}", u, name(u))).collect();
+    o.push_str(&format!("#[tauri::command]\npub fn touch_all({}) {{}}\n", args.join(", ")));
+    o
+}
+
+fn run_analyzer(c: &Case, project: &str) -> Result<(), String> {
+    let mut an = tauri_typegen::analysis::CommandAnalyzer::new();
+    an.analyze_project(project).map_err(|e| e.to_string())?;
+    for (k, req) in c.requested.iter().enumerate() {
+        let set: HashSet<String> = req.iter().map(|i| name(*i)).collect();
+        let sorted = an.topological_sort_types(&set);
+        println!("T {} {}", k, sorted.join(","));
+    }
+    Ok(())
 }
 
 fn run_routines(c: &Case) -> Result<(), String> {
@@ -82,8 +120,15 @@ fn run_routines(c: &Case) -> Result<(), String> {
     for i in 0..c.n {
         r.add_node(node(i));
     }
-    for &(u, v) in &c.edges {
-        r.add_dependency(Dependency { from: node(u), to: node(v), dependency_type: DependencyType::Field });
+    for (k, &(u, v)) in c.edges.iter().enumerate() {
+        let dependency_type = match k % 5 {
+            0 => DependencyType::Field,
+            1 => DependencyType::Generic,
+            2 => DependencyType::Direct,
+            3 => DependencyType::Variant,
+            _ => DependencyType::Import,
+        };
+        r.add_dependency(Dependency { from: node(u), to: node(v), dependency_type });
     }
     match r.resolve_build_order() {
         Ok(order) => println!("R ok {}", order.iter().map(|n| n.name.clone()).collect::<Vec<_>>().join(",")),
@@ -141,6 +186,14 @@ impl Check for C20 {
             edges.sort();
             edges.dedup();
         }
+        // the same (from, to) pair may be recorded more than once (e.g. once as a field,
+        // once as a generic argument)
+        if !edges.is_empty() && r.chance(1, 3) {
+            for _ in 0..r.range(1, 3) {
+                let e = *r.pick(&edges);
+                edges.push(e);
+            }
+        }
         r.shuffle(&mut edges);
         let mut requested = vec![];
         for _ in 0..3 {
@@ -153,7 +206,8 @@ impl Check for C20 {
         requested.push((0..n).collect());
         let s = if tier == Tier::Thorough { 24 } else { 8 };
         let keys = (0..s).map(|_| [r.next_u64(), r.next_u64()]).collect();
-        serde_json::to_value(Case { n, edges, incremental: r.chance(1, 3), requested, keys }).unwrap()
+        let via_analyzer = i % 8 == 5 && n <= 7;
+        serde_json::to_value(Case { n, edges, incremental: r.chance(1, 3), requested, keys, via_analyzer }).unwrap()
     }
 
     fn exec(&self, env: &mut Env, case: &Value) -> CaseOut {
@@ -281,6 +335,58 @@ impl Check for C20 {
                     _ => {}
                 }
             }
+        }
+        if c.via_analyzer && co.violations.is_empty() {
+            // the same graph through the analyzer's entry point; oracle (1) applies unchanged
+            let w = env.world();
+            std::fs::write(w.src_tauri().join("src/graph.rs"), render_project(&c)).unwrap();
+            let project = w.src_tauri().to_string_lossy().into_owned();
+            for k in c.keys.iter().take(3) {
+                let mut spec = ProcSpec::plain(k[0]);
+                spec.hash_keys = *k;
+                let cc = c.clone();
+                let pp = project.clone();
+                let res = env.run_func(spec, Call::Func(Box::new(move || run_analyzer(&cc, &pp))));
+                co.count("processes", 1);
+                co.count("analyzer_entry_point_runs", 1);
+                if !res.status.is_ok() {
+                    co.violate("C20/analyzer/fails".into(), "the routine returns", res.status.short());
+                    break;
+                }
+                for line in res.stdout.lines() {
+                    let mut it = line.splitn(3, ' ');
+                    if it.next() != Some("T") {
+                        continue;
+                    }
+                    let k: usize = it.next().unwrap().parse().unwrap();
+                    let names: Vec<usize> = it.next().unwrap_or("").split(',').filter(|s| s.starts_with('N')).map(|s| s[1..].parse().unwrap()).collect();
+                    let req = &c.requested[k];
+                    let set: BTreeSet<usize> = names.iter().copied().collect();
+                    if set.len() != names.len() {
+                        co.violate("C20/analyzer/duplicate".into(), "each type is returned exactly once", format!("requested {:?}: {:?}", req, names));
+                    }
+                    let mut want: BTreeSet<usize> = req.iter().copied().collect();
+                    for &q in req {
+                        for t in 0..n_all {
+                            if reach[q][t] {
+                                want.insert(t);
+                            }
+                        }
+                    }
+                    if set != want {
+                        co.violate("C20/analyzer/set".into(), "the result is the requested types plus all their transitive dependencies (through CommandAnalyzer::topological_sort_types)", format!("requested {:?}: got {:?}, expected {:?}", req, set, want));
+                    }
+                    let pos = |x: usize| names.iter().position(|y| *y == x);
+                    for &(u, v) in &c.edges {
+                        if let (Some(pu), Some(pv)) = (pos(u), pos(v)) {
+                            if !same_scc(u, v) && pv > pu {
+                                co.violate("C20/analyzer/order".into(), "every dependency comes before its dependents when the two are not on a common cycle", format!("requested {:?}: {} depends on {} but order is {:?}", req, name(u), name(v), names));
+                            }
+                        }
+                    }
+                }
+            }
+            w.destroy();
         }
         co.count("cycle_cut_branch_executions", cuts);
         co.count(if cyclic { "cyclic_graphs" } else { "acyclic_graphs" }, 1);
